@@ -145,3 +145,12 @@ Theorem C03_exponent_checker_sound : forall m mn mx lb e, chk_exp_from_log m mn 
   exists l, f32_dec lb = Some l /\ e = exp_from_log m mn mx l.
 Proof. exact chk_exp_from_log_sound. Qed.
 Print Assumptions C03_exponent_checker_sound.
+
+(* ---- max() / min() of quantized_po2 as /repo has them now (coq/gen/ReportGen.v, regenerated on every run) ---- *)
+From QVGen Require ReportGen.
+From QV Require Link.ReportLink.
+Theorem C03_code_po2_reporters_are_the_model : forall bits mv mode,
+  ReportGen.gen_po2_max mv (po2_max_exp bits mv) = po2_max (P2 bits mv mode) /\
+  ReportGen.gen_po2_min mv (po2_max_exp bits mv) = rneg (po2_max (P2 bits mv mode)).
+Proof. exact ReportLink.link_po2_reporters. Qed.
+Print Assumptions C03_code_po2_reporters_are_the_model.
